@@ -828,12 +828,48 @@ def ceil(pid):
                 if blk["cleanup"]:
                     continue
                 for i, st in enumerate(blk["stmts"]):
-                    if st["s"] != "assign" or st["rv"]["r"] != "binop" or not st["rv"]["op"].startswith("Add"):
+                    if st["s"] != "assign" or st["rv"]["r"] != "binop" or not (st["rv"]["op"].startswith("Add") or st["rv"]["op"].startswith("Sub")):
                         continue
                     if st["span"].get("macros"):
                         continue
                     pr = pr or Prov(f)
                     p = pr._def((bb, i, st), 0, ())
+                    if st["rv"]["op"].startswith("Sub"):
+                        # `y - x % y` as "what is left of the last unit": a whole unit, not nothing, when x is a multiple
+                        m2 = re.match(r"^Sub\((.*)\)$", p)
+                        from prov import _split_top as _st2
+                        ps = _st2(m2.group(1)) if m2 else []
+                        if len(ps) != 2:
+                            continue
+                        # `(x | (y - 1)) - from` as a length: x | (y - 1) is the LAST offset of the unit holding x, an
+                        # inclusive end; as an exclusive end it is one short (unless 1 is added first)
+                        mm = re.search(r"BitOr\(([^()]|\((?:[^()]|\([^()]*\))*\))*,Sub\((?:[^()]|\((?:[^()]|\([^()]*\))*\))*,const:1\)\)", ps[0])
+                        if mm and not re.search(r"Add\(" + re.escape(mm.group(0)) + r",const:1\)|Add\(const:1," + re.escape(mm.group(0)) + r"\)", ps[0]):
+                            n += 1
+                            res.fail(Finding(res.rule, "R-CEIL/%s/inclusive-end-as-length" % f.path, "%s takes %s as an exclusive end (a length is computed by subtracting an offset from it): x | (unit - 1) is the last offset INSIDE the unit, so the range stops one byte short of the unit's end" % (f.path.split("::")[-1], mm.group(0)[:80]), f, st["span"]))
+                            continue
+                        m3 = re.match(r"^(?:cast\()?Rem\((.*)\)\)?$", ps[1])
+                        qs = _st2(m3.group(1)) if m3 else []
+                        if len(qs) != 2 or qs[1] != ps[0]:
+                            continue
+                        n += 1
+                        g = g or _guards(ctx, f)
+                        atoms = g.atoms_at(("s", bb, i))
+                        x, y = qs
+                        tested = any(re.match(r"^\((Ne|Gt|Eq)\(Rem\(%s,%s\),const:0\)\)$" % (re.escape(x), re.escape(y)), a) for a in atoms)
+                        # ... or the result is reduced modulo y again where it is used
+                        dl = st["place"]["local"] if not st["place"]["proj"] else None
+                        reduced = False
+                        if dl is not None:
+                            for bb2, blk2 in enumerate(f.blocks):
+                                for st2 in blk2["stmts"]:
+                                    if st2["s"] == "assign" and st2["rv"]["r"] == "binop" and st2["rv"]["op"].startswith("Rem") and st2["rv"]["a"].get("place", {}).get("local") == dl:
+                                        reduced = True
+                        if tested or reduced:
+                            res.ok({"function": f.path, "expression": p[:80], "remainder_tested": True}, nontrivial=True)
+                        else:
+                            res.fail(Finding(res.rule, "R-CEIL/%s/complement-of-remainder" % f.path, "%s takes %s - %s %% %s as the rest of the last unit with no test of the remainder: for an exact multiple that is a whole unit, not nothing (a write of that many bytes at the end of the chain appends a sector the length does not call for)" % (f.path.split("::")[-1], y[:40], x[:40], y[:40]), f, st["span"]))
+                        continue
                     m = re.match(r"^Add\((?:cast\()?Div\((.*)\)\)?,const:1\)$", p) or re.match(r"^Add\(const:1,(?:cast\()?Div\((.*)\)\)?\)$", p)
                     if not m:
                         continue
@@ -941,6 +977,29 @@ def namelen(pid):
                     res.fail(Finding(res.rule, key + "/limit-below-writer-maximum", "the reader refuses name lengths above %d, but the writer stores (units + 1) * 2 = %d for a valid name of MAX_NAME_LEN = %s units: a file this library wrote itself can no longer be opened" % (lim, need, maxname), f, c.term["span"]))
                 break
         res.floor("name-length limits", min(n, 1), ctx.table("floors").get("namelen_sites", 0))
+        # the writer's side of the same field: the stored length is (units + 1) * 2 with `units` the number of UTF-16
+        # code units that were written - not chars, not bytes (the reader cuts the name at that length)
+        w = ctx.fx.fns.get("internal::direntry::DirEntry::write_to")
+        nw = 0
+        if w is not None:
+            vw = view(ctx, w)
+            prw = Prov(w)
+            for bb, c in sorted(vw.calls.items()):
+                if not c.name.endswith("write_le_u16") or len(c.term["args"]) < 2:
+                    continue
+                val = prw.operand(c.term["args"][1])
+                m = re.match(r"^Mul\(Add\((.*),const:1\),const:2\)$", val) or re.match(r"^Mul\(const:2,Add\((.*),const:1\)\)$", val) or re.match(r"^Add\(Mul\((.*),const:2\),const:2\)$", val)
+                if not m:
+                    continue
+                nw += 1
+                units = m.group(1)
+                if "encode_utf16(" in units or "len_utf16" in units:
+                    res.ok({"function": w.path, "line": c.line, "stored_length": val[:100]}, nontrivial=True)
+                elif "chars(" in units or re.search(r"len\(param:self\.name\)|as_bytes\(", units):
+                    res.fail(Finding(res.rule, "R-NAMELEN/%s/stored-length-not-in-utf16-units" % w.path, "write_to stores the name length as (%s + 1) * 2, which does not count UTF-16 code units: for a name with a supplementary-plane character the stored length is too short, and the reopened entry has a cut-off (or undecodable) name" % units[:90], w, c.term["span"]))
+                else:
+                    res.ok({"function": w.path, "line": c.line, "stored_length": val[:100], "note": "way of counting not recognised: no verdict"})
+        res.floor("name-length stores in write_to", nw, ctx.table("floors").get("namelen_writer_sites", 0))
         return res
     return run
 
@@ -1045,7 +1104,8 @@ def namelimit(pid):
     bytes lets a name with supplementary-plane characters through (1 char = 2 units), and the entry is refused or
     truncated only when it is serialised - after the slot was allocated and linked."""
     def run(ctx):
-        res = RuleResult("R-NAMELIMIT(%s)" % pid, "validate_name refuses over-long names by a length counted over encode_utf16() against MAX_NAME_LEN; no length test there counts chars or bytes")
+        from core import numeric
+        res = RuleResult("R-NAMELIMIT(%s)" % pid, "validate_name refuses over-long names by a length in UTF-16 code units (a count over encode_utf16(), or a sum of char::len_utf16) against MAX_NAME_LEN; no length test there counts chars or bytes")
         f = ctx.fx.fns.get("internal::path::validate_name")
         if f is None:
             res.gone.append("validate_name")
@@ -1053,18 +1113,23 @@ def namelimit(pid):
         g = _guards(ctx, f)
         from rules_api import refusals
         n = 0
-        good = 0
+        seen = set()
         for (c, kind) in refusals(ctx, f):
             for a in g.atoms_at(("t", c.bb)):
-                m = re.match(r"^\((Gt|Ge)\((.*),(const:[^(),]*|Add\(const:[^()]*\))\)\)$", a)
-                if not m or not re.search(r"(len|count)\(", m.group(2)):
+                m = re.match(r"^\((Gt|Ge)\((.*),([^(),]*|Add\([^()]*\))\)\)$", numeric(a))
+                if not m or not re.match(r"^(const:3[12]|Add\(const:31,const:1\))$", m.group(3)):
                     continue
+                expr = m.group(2)
+                if expr in seen:
+                    continue
+                seen.add(expr)
                 n += 1
-                if "encode_utf16(" in m.group(2) and "chars(" not in m.group(2):
-                    good += 1
-                    res.ok({"function": f.path, "line": c.line, "length_measured_as": m.group(2)[:100]}, nontrivial=True)
+                if "encode_utf16(" in expr or "len_utf16" in expr:
+                    res.ok({"function": f.path, "line": c.line, "length_measured_as": expr[:100]}, nontrivial=True)
+                elif ("chars(" in expr and ("count(" in expr or "len(" in expr)) or re.search(r"(^|\()len\(param:name\)|<impl str>::len\(param:name\)|as_bytes\(param:name\)", expr):
+                    res.fail(Finding(res.rule, "R-NAMELIMIT/%s/length-not-in-utf16-units" % f.path, "validate_name refuses over-long names by %s, which is not a count of UTF-16 code units: a name of at most 31 chars but more than 31 units passes, and the 32-unit name field cannot hold it (the entry is refused or truncated after it was allocated and linked)" % expr[:100], f, c.term["span"]))
                 else:
-                    res.fail(Finding(res.rule, "R-NAMELIMIT/%s/length-not-in-utf16-units" % f.path, "validate_name refuses over-long names by %s, which is not a count of UTF-16 code units: a name of at most 31 chars but more than 31 units passes, and the 32-unit name field cannot hold it (the entry is refused or truncated after it was allocated and linked)" % m.group(2)[:100], f, c.term["span"]))
+                    res.ok({"function": f.path, "line": c.line, "length_measured_as": expr[:100], "note": "way of measuring not recognised: no verdict"})
         res.floor("length refusals in validate_name", n, ctx.table("floors").get("namelimit_sites", 0))
         return res
     return run
@@ -1098,5 +1163,113 @@ def trimloop(pid):
                 else:
                     res.fail(Finding(res.rule, "R-TRIMLOOP/%s/single-trim" % f.path, "free_mini_sector removes one trailing free MiniFAT entry and does not look again: a mini chain released front to back leaves free entries at the end of the table although the mini stream length was only reduced by one sector; after a reopen (which strips them all) the recorded mini stream is longer than the MiniFAT and grows with every create/remove cycle", f, c.term["span"]))
         res.floor("MiniFAT trims in free_mini_sector", n, ctx.table("floors").get("trimloop_sites", 0))
+        return res
+    return run
+
+
+def detach(pid):
+    """R-DETACH: a node that adopts another node's whole left (right) subtree is itself the right-most (left-most)
+    node of that subtree - that is how the in-order predecessor (successor) is found.  Before it adopts the subtree
+    it has to be taken out of it: the link through which it hangs there is overwritten first, on every path.
+    Otherwise the subtree contains a link back to its new root: the sibling tree has a cycle, and every lookup,
+    insertion or listing that walks into it never ends."""
+    from dataflow import forward_taint
+    LINKF = ("left_sibling", "right_sibling")
+
+    def run(ctx):
+        res = RuleResult("R-DETACH(%s)" % pid, "a store X.left_sibling := (another node's left link) (or the mirror image) is preceded on every path by the overwrite of a right_sibling (left_sibling) link of a third node: the adopted subtree no longer leads back to X")
+        accessors = ctx.table("reloc").get("entry_accessors", [])
+        n = 0
+        for f in ctx.fx.fns.values():
+            if not f.path.startswith("internal::directory::"):
+                continue
+            v = view(ctx, f)
+            accs = [c for c in v.calls.values() if c.name in accessors and c.name.endswith("_mut") and len(c.term["args"]) > 1]
+            if not accs:
+                continue
+            pr = Prov(f)
+            names = {nm: l for l, nm in f.debug_names().items()}
+
+            def resolve(x):
+                m = re.match(r"^var:(\w+)$", x)
+                if m and m.group(1) in names:
+                    ds = [pr._def(d, 1, (names[m.group(1)],)) for d in pr.defs.get(names[m.group(1)], [])]
+                    if len(ds) == 1:
+                        return ds[0]
+                return x
+            stores = []
+            for a in accs:
+                refs = forward_taint(f, {a.term["dest"]["local"]})
+                for bb, blk in enumerate(f.blocks):
+                    if blk["cleanup"]:
+                        continue
+                    for i, st in enumerate(blk["stmts"]):
+                        if st["s"] == "assign" and st["place"]["local"] in refs and st["place"]["proj"] and st["place"]["proj"][-1].get("p") == "field" and st["place"]["proj"][-1].get("name") in LINKF:
+                            raw = pr._def((bb, i, st), 0, ())
+                            stores.append((pr.operand(a.term["args"][1]), st["place"]["proj"][-1]["name"], resolve(raw), ("s", bb, i), st, raw))
+            for (idv, fld, val, node, st, raw) in stores:
+                m = re.match(r"^Directory::dir_entry\(param:self,(var:\w+|param:\w+)\)\.(left_sibling|right_sibling)$", val)
+                if not m or m.group(2) != fld or m.group(1) == idv:
+                    continue
+                # only when the adopter was found by walking INTO the adopted subtree (its variable starts from that
+                # very link): the predecessor adopting the removed node's right subtree comes from the other side
+                mx = re.match(r"^var:(\w+)$", idv)
+                origins = set()
+                if mx and mx.group(1) in names:
+                    for d in pr.defs.get(names[mx.group(1)], []):
+                        dp = pr._def(d, 1, (names[mx.group(1)],))
+                        for alt in (dp[4:-1].split("|") if dp.startswith("phi(") and dp.endswith(")") else [dp]):
+                            origins.add(alt)
+                            origins.add(resolve(alt))
+                if not ({val, raw} & origins):
+                    continue
+                n += 1
+                other = "right_sibling" if fld == "left_sibling" else "left_sibling"
+                cut = {nd for (idv2, fld2, _v, nd, _s, _r) in stores if fld2 == other and idv2 != idv}
+                reach = v.pg.reach([v.pg.entry()], cut)
+                key = "R-DETACH/%s/%s-adopted-without-detaching" % (f.path, fld)
+                if node in reach:
+                    res.fail(Finding(res.rule, key, "%s gives node %s the whole %s subtree of %s, and a path reaches that store on which no %s link of a third node was overwritten before: %s is the %s-most node of that subtree, so the subtree still links back to its new root - a cycle in the sibling tree (lookups between the two names, insertions and listings never end)" % (
+                        f.path.split("::")[-1], idv, fld.split("_")[0], m.group(1), other, idv, other.split("_")[0]), f, st["span"]))
+                else:
+                    res.ok({"function": f.path, "adopter": idv, "adopts": val[-60:], "detached_first_by": "store to a %s of another node on every path" % other}, nontrivial=True)
+        res.floor("subtree adoptions", n, ctx.table("floors").get("detach_sites", 0))
+        return res
+    return run
+
+
+def freebeforeremove(pid):
+    """R-FREEFIRST: Directory::remove_dir_entry only unlinks the entry and blanks its slot; the sectors of a stream
+    are released by whoever removes it.  So every call of remove_dir_entry from above the directory layer lies
+    behind the release of the entry's chain (free_chain / free_mini_chain), or on a branch that established that
+    the entry is not a stream.  Otherwise every removal (or overwrite-by-removal) orphans the old contents: the
+    sectors stay allocated, owned by nothing, and the file grows with every cycle."""
+    def run(ctx):
+        res = RuleResult("R-FREEFIRST(%s)" % pid, "every call of remove_dir_entry made above the directory layer is preceded on every path by free_chain / free_mini_chain, or lies on a branch where the entry's type was found not to be Stream")
+        n = 0
+        for f in ctx.fx.fns.values():
+            if f.path.startswith("internal::directory::") or f.path.startswith("internal::minialloc::"):
+                continue
+            v = view(ctx, f)
+            calls = [c for c in v.calls.values() if re.search(r"(MiniAllocator|Directory)::<F>::remove_dir_entry$", c.name)]
+            if not calls:
+                continue
+            g = _guards(ctx, f)
+            frees = set()
+            for c2 in v.calls.values():
+                if re.search(r"::(free_chain|free_mini_chain)$", c2.name):
+                    frees.update(v.ok_nodes(c2.bb) or [("t", c2.bb)])
+            notstream = set()
+            for b, k, val, vals in _edges(f):
+                if any(re.search(r"obj_type is (not ObjType::Stream|ObjType::Storage|ObjType::Root)$", a) for a in g.describe_all(b, val, vals)):
+                    notstream.update(v.pg.edge_node(b, f.succ(b)[k]))
+            reach = v.pg.reach([v.pg.entry()], frees | notstream)
+            for c in calls:
+                n += 1
+                if ("t", c.bb) in reach:
+                    res.fail(Finding(res.rule, "R-FREEFIRST/%s/entry-removed-with-its-chain-allocated" % f.path, "%s removes a directory entry (line %d) on a path that neither released the entry's sector chain nor established that the entry is not a stream: the old contents stay allocated in the FAT / MiniFAT and belong to nothing, and the file grows with every such removal" % (f.path.split("::")[-1], c.line), f, c.term["span"]))
+                else:
+                    res.ok({"function": f.path, "line": c.line, "behind": "free_chain/free_mini_chain or a not-a-stream branch"}, nontrivial=True)
+        res.floor("removals of directory entries above the directory layer", n, ctx.table("floors").get("freefirst_sites", 0))
         return res
     return run
